@@ -8,7 +8,7 @@ import vlib
 import surface
 import progrun
 
-IMPORTS = "From NadaV.Gen Require Import GenScalar.\nFrom NadaV.Spec Require Import MirSpec.\n"
+IMPORTS = "From NadaV.Gen Require Import GenScalar.\nFrom NadaV.Spec Require Import MirSpec Denote.\n"
 AGREE = "(fun cs => indices_where (fun c : program * ioutcome => negb (outcome_agrees (run G (fst c)) (snd c))) cs 0%Z)"
 
 
